@@ -76,72 +76,84 @@ def cpGet (p idx : Nat) : Bytes :=
 def PSt.put (s : PSt) (key : Option PKey) : PSt :=
   ⟨s.n + 1, match key with | some k => (k, s.n) :: s.tab | none => s.tab⟩
 
-def putS (p : Nat) (s : PSt) (key : Option PKey) : Option (Bytes × PSt) :=
+def putS1 (p : Nat) (s : PSt) (key : Option PKey) : Option (Bytes × PSt) :=
   if s.n < 2 ^ 32 then some (cpPut p s.n, s.put key) else none
 
-/-- `save_unicode`. -/
-def saveStrS (p : Nat) (s : PSt) (key : Option PKey) (txt : Bytes) : Option (Bytes × PSt) :=
+/-- `mz key`: is this object memoized at all?  Always, for the picklers; `pickletools.optimize` keeps only the PUTs whose
+    object is fetched again (and renumbers them, which the running index `s.n` does by itself). -/
+def putS (mz : Option PKey → Bool) (p : Nat) (s : PSt) (key : Option PKey) : Option (Bytes × PSt) :=
+  if mz key then putS1 p s key else some ([], s)
+
+/-- `save_unicode`: looked up under `key`, memoized under `putKey` (the same, except where the pure-Python pickler
+    memoizes a copy — see `strCopied`). -/
+def saveStrS (mz : Option PKey → Bool) (p : Nat) (s : PSt) (key putKey : Option PKey) (txt : Bytes) : Option (Bytes × PSt) :=
   match key.bind s.find with
   | some idx => some (cpGet p idx, s)
   | none =>
     match cpStr p txt with
     | some b =>
-      match putS p s key with
+      match putS mz p s putKey with
       | some (pb, s') => some (b ++ pb, s')
       | none => none
     | none => none
 
+/-- At protocol 0 the pure-Python pickler of CPython 3.11 escapes backslash, NUL, LF, CR and 0x1a with `str.replace` and then
+    memoizes the RESULT: when something was replaced that is a new object, so the original is never found in the memo and a
+    repeated string is written again in full. -/
+def strCopied (py : Bool) (p : Nat) (txt : Bytes) : Bool :=
+  py && p == 0 && txt.any fun b => b == 92 || b == 0 || b == 10 || b == 13 || b == 26
+
 /-- `save_global` of one of the three builtins. -/
-def saveGlobalS (p : Nat) (s : PSt) (key : PKey) (m n : Bytes) : Option (Bytes × PSt) :=
+def saveGlobalS (mz : Option PKey → Bool) (p : Nat) (s : PSt) (key : PKey) (m n : Bytes) : Option (Bytes × PSt) :=
   match s.find key with
   | some idx => some (cpGet p idx, s)
   | none =>
     if p ≥ 4 then
-      match saveStrS p s none m with
+      match saveStrS mz p s none none m with
       | some (b1, s1) =>
-        match saveStrS p s1 none n with
+        match saveStrS mz p s1 none none n with
         | some (b2, s2) =>
-          match putS p s2 (some key) with
+          match putS mz p s2 (some key) with
           | some (pb, s3) => some (b1 ++ b2 ++ [0x93] ++ pb, s3)
           | none => none
         | none => none
       | none => none
     else
-      match putS p s (some key) with
+      match putS mz p s (some key) with
       | some (pb, s1) => some (99 :: m ++ [10] ++ n ++ [10] ++ pb, s1)
       | none => none
 
 def emptyTupleBytes (p : Nat) : Bytes := if p ≥ 1 then [41] else [40, 116]
 
 /-- `save_bytes`. -/
-def saveBytesS (p : Nat) (s : PSt) (key : Option PKey) (d : Bytes) : Option (Bytes × PSt) :=
+def saveBytesS (mz : Option PKey → Bool) (p : Nat) (s : PSt) (key : Option PKey) (d : Bytes) : Option (Bytes × PSt) :=
   match key.bind s.find with
   | some idx => some (cpGet p idx, s)
   | none =>
     if p ≥ 3 then
       match cpBytes p d with
       | some b =>
-        match putS p s key with
+        match putS mz p s key with
         | some (pb, s') => some (b ++ pb, s')
         | none => none
       | none => none
     else if d.isEmpty then
-      match saveGlobalS p s .gBytes (pybuiltinModuleE p) (sb "bytes") with
+      match saveGlobalS mz p s .gBytes (pybuiltinModuleE p) (sb "bytes") with
       | some (g, s1) =>
-        match putS p s1 key with
+        match putS mz p s1 key with
         | some (pb, s2) => some (g ++ emptyTupleBytes p ++ [82] ++ pb, s2)
         | none => none
       | none => none
     else
-      match saveGlobalS p s .gEncode (sb "_codecs") (sb "encode") with
+      match saveGlobalS mz p s .gEncode (sb "_codecs") (sb "encode") with
       | some (g, s1) =>
-        match saveStrS p s1 none (latin1ToUtf8 d) with
+        match saveStrS mz p s1 none none (latin1ToUtf8 d) with
         | some (b1, s2) =>
-          match saveStrS p s2 (some .sLatin1) (sb "latin1") with
+          match saveStrS mz p s2 (some .sLatin1) (some .sLatin1) (sb "latin1") with
           | some (b2, s3) =>
-            match putS p s3 none with
+            match putS mz p s3 none with
             | some (pt, s4) =>
-              match putS p s4 key with
+              match putS mz p s4 key with
               | some (pb, s5) =>
                 some (g ++ ((if p ≥ 2 then [] else [40]) ++ (b1 ++ b2) ++ [if p ≥ 2 then 0x86 else 116] ++ pt) ++ [82] ++ pb, s5)
               | none => none
@@ -151,30 +163,30 @@ def saveBytesS (p : Nat) (s : PSt) (key : Option PKey) (d : Bytes) : Option (Byt
       | none => none
 
 /-- `save_bytearray`. -/
-def saveBytearrayS (p : Nat) (s : PSt) (key : Option PKey) (d : Bytes) : Option (Bytes × PSt) :=
+def saveBytearrayS (mz : Option PKey → Bool) (p : Nat) (s : PSt) (key : Option PKey) (d : Bytes) : Option (Bytes × PSt) :=
   match key.bind s.find with
   | some idx => some (cpGet p idx, s)
   | none =>
     if p ≥ 5 then
       match cpBytearray p d with
       | some b =>
-        match putS p s key with
+        match putS mz p s key with
         | some (pb, s') => some (b ++ pb, s')
         | none => none
       | none => none
     else
-      match saveGlobalS p s .gBytearray (pybuiltinModuleE p) (sb "bytearray") with
+      match saveGlobalS mz p s .gBytearray (pybuiltinModuleE p) (sb "bytearray") with
       | some (g, s1) =>
         if d.isEmpty then
-          match putS p s1 key with
+          match putS mz p s1 key with
           | some (pb, s2) => some (g ++ emptyTupleBytes p ++ [82] ++ pb, s2)
           | none => none
         else
-          match saveBytesS p s1 none d with
+          match saveBytesS mz p s1 none d with
           | some (bb, s2) =>
-            match putS p s2 none with
+            match putS mz p s2 none with
             | some (pt, s3) =>
-              match putS p s3 key with
+              match putS mz p s3 key with
               | some (pb, s4) =>
                 some (g ++ ((if p ≥ 2 then [] else [40]) ++ bb ++ [if p ≥ 2 then 0x85 else 116] ++ pt) ++ [82] ++ pb, s4)
               | none => none
@@ -184,69 +196,69 @@ def saveBytearrayS (p : Nat) (s : PSt) (key : Option PKey) (d : Bytes) : Option 
 
 mutual
 /-- `save(obj)` with the memo. -/
-def cpSaveS (p : Nat) : PyObjS → PSt → Option (Bytes × PSt)
+def cpSaveS (mz : Option PKey → Bool) (py : Bool) (p : Nat) : PyObjS → PSt → Option (Bytes × PSt)
   | .none, s => some ([78], s)
   | .bool b, s => some ((encodeBool (ecfg p) b).chunks.flatten, s)
   | .int i, s => (cpInt p i).map (·, s)
   | .float f, s => some (cpFloat p f, s)
-  | .str oid t, s => saveStrS p s (some (.str oid t)) t
-  | .bytes oid d, s => saveBytesS p s (some (.bytes oid d)) d
-  | .bytearray oid d, s => saveBytearrayS p s (some (.bytearray oid d)) d
+  | .str oid t, s => saveStrS mz p s (some (.str oid t)) (if strCopied py p t then none else some (.str oid t)) t
+  | .bytes oid d, s => saveBytesS mz p s (some (.bytes oid d)) d
+  | .bytearray oid d, s => saveBytearrayS mz p s (some (.bytearray oid d)) d
   | .tuple xs, s =>
     if xs.isEmpty then some (emptyTupleBytes p, s)
-    else match cpSaveListS p xs s with
+    else match cpSaveListS mz py p xs s with
       | some (fs, s1) =>
-        match putS p s1 none with
+        match putS mz p s1 none with
         | some (pb, s2) =>
           some ((if p ≥ 2 ∧ xs.length ≤ 3 then [] else [40]) ++ fs.flatten ++
             (if p ≥ 2 ∧ xs.length ≤ 3 then [if xs.length = 1 then 0x85 else if xs.length = 2 then 0x86 else 0x87] else [116]) ++ pb, s2)
         | none => none
       | none => none
   | .list xs, s =>
-    match putS p s none with
+    match putS mz p s none with
     | some (pb, s1) =>
-      match cpSaveListS p xs s1 with
-      | some (fs, s2) => some ((if p ≥ 1 then [93] else [40, 108]) ++ pb ++ cpBatchList p fs, s2)
+      match cpSaveListS mz py p xs s1 with
+      | some (fs, s2) => some ((if p ≥ 1 then [93] else [40, 108]) ++ pb ++ cpBatchList py p fs, s2)
       | none => none
     | none => none
   | .dict kvs, s =>
-    match putS p s none with
+    match putS mz p s none with
     | some (pb, s1) =>
-      match cpSavePairsS p kvs s1 with
-      | some (fs, s2) => some ((if p ≥ 1 then [125] else [40, 100]) ++ pb ++ cpBatchDict p fs, s2)
+      match cpSavePairsS mz py p kvs s1 with
+      | some (fs, s2) => some ((if p ≥ 1 then [125] else [40, 100]) ++ pb ++ cpBatchDict py p fs, s2)
       | none => none
     | none => none
-def cpSaveListS (p : Nat) : List PyObjS → PSt → Option (List Bytes × PSt)
+def cpSaveListS (mz : Option PKey → Bool) (py : Bool) (p : Nat) : List PyObjS → PSt → Option (List Bytes × PSt)
   | [], s => some ([], s)
   | x :: xs, s =>
-    match cpSaveS p x s with
+    match cpSaveS mz py p x s with
     | some (b, s1) =>
-      match cpSaveListS p xs s1 with
+      match cpSaveListS mz py p xs s1 with
       | some (fs, s2) => some (b :: fs, s2)
       | none => none
     | none => none
-def cpSavePairsS (p : Nat) : List (PyObjS × PyObjS) → PSt → Option (List Bytes × PSt)
+def cpSavePairsS (mz : Option PKey → Bool) (py : Bool) (p : Nat) : List (PyObjS × PyObjS) → PSt → Option (List Bytes × PSt)
   | [], s => some ([], s)
   | (k, v) :: r, s =>
-    match cpSaveS p k s with
+    match cpSaveS mz py p k s with
     | some (bk, s1) =>
-      match cpSaveS p v s1 with
+      match cpSaveS mz py p v s1 with
       | some (bv, s2) =>
-        match cpSavePairsS p r s2 with
+        match cpSavePairsS mz py p r s2 with
         | some (fs, s3) => some ((bk ++ bv) :: fs, s3)
         | none => none
       | none => none
     | none => none
 end
 
-def cpDumpsBodyS (p : Nat) (v : PyObjS) : Option Bytes :=
-  (cpSaveS p v ⟨0, []⟩).map fun (b, _) => b ++ [46]
+def cpDumpsBodyS (mz : Option PKey → Bool) (py : Bool) (p : Nat) (v : PyObjS) : Option Bytes :=
+  (cpSaveS mz py p v ⟨0, []⟩).map fun (b, _) => b ++ [46]
 
-def cpDumpsS (p : Nat) (v : PyObjS) : Option Bytes :=
-  (cpDumpsBodyS p v).map fun b => (if p ≥ 2 then [0x80, UInt8.ofNat p] else []) ++ b
+def cpDumpsS (mz : Option PKey → Bool) (py : Bool) (p : Nat) (v : PyObjS) : Option Bytes :=
+  (cpDumpsBodyS mz py p v).map fun b => (if p ≥ 2 then [0x80, UInt8.ofNat p] else []) ++ b
 
-def cpDumpsFramedS (p : Nat) (v : PyObjS) : Option Bytes :=
-  (cpDumpsBodyS p v).map fun b =>
+def cpDumpsFramedS (mz : Option PKey → Bool) (py : Bool) (p : Nat) (v : PyObjS) : Option Bytes :=
+  (cpDumpsBodyS mz py p v).map fun b =>
     (if p ≥ 2 then [0x80, UInt8.ofNat p] else []) ++
       (if p ≥ 4 ∧ b.length ≥ 4 then 0x95 :: le8 b.length else []) ++ b
 
